@@ -504,7 +504,9 @@ Record blk := mkBlk { b_txs : list tx; b_vu : option (list (Z * Z)); b_codes : l
                       b_store : sproj; b_mem : mproj }.   (* store after Commit, memory after the next BeginBlock *)
 
 (* one observation of a twin: (height, result codes, [(token, next, latest)], store digest, app hash, memory digest) *)
-Record obs := mkObs { o_h : Z; o_codes : list Z; o_rounds : list (Z * (Z * option Z)); o_store : Z; o_app : Z; o_mem : Z; o_panic : bool }.
+Record obs := mkObs { o_h : Z; o_codes : list Z; o_rounds : list (Z * (Z * option Z)); o_store : Z; o_app : Z; o_mem : Z;
+                      o_px : Z;   (* digest of GetSpecifiedAssetsPrice for every registered asset id *)
+                      o_panic : bool }.
 
 Record case := mkCase {
   c_params : params; c_vals : list (Z * Z); c_next0 : list (Z * (Z * option Z));
@@ -518,7 +520,7 @@ Record case := mkCase {
 Definition obs_eqb (a b : obs) : bool :=
   (o_h a =? o_h b) && zl_eqb (o_codes a) (o_codes b) &&
   list_eqb (fun x y => (fst x =? fst y) && (fst (snd x) =? fst (snd y)) && oz_eqb (snd (snd x)) (snd (snd y))) (o_rounds a) (o_rounds b) &&
-  (o_store a =? o_store b) && (o_app a =? o_app b) && Bool.eqb (o_panic a) (o_panic b).
+  (o_store a =? o_store b) && (o_app a =? o_app b) && (o_px a =? o_px b) && Bool.eqb (o_panic a) (o_panic b).
 
 (* THE PROPERTY on the implementation's observed behaviour: the restarted twin produces the same results
    (codes, prices / round ids, whole oracle store, app hash) at every following height and did not crash. *)
